@@ -11,8 +11,8 @@ Import ListNotations.
 Open Scope N_scope.
 
 (* ------------------------------------------------------------------ what the nested handlers leave alone *)
-Definition xa_frame (s : astate) : bool * bool * bool * bool * bool :=
-  (a_gave_input s, a_gave_output s, a_used_enc_pw s, a_pages_file s, a_pages_range s).
+Definition xa_frame (s : astate) : bool * bool * bool * bool * bool * bstr * bstr :=
+  (a_gave_input s, a_gave_output s, a_used_enc_pw s, a_pages_file s, a_pages_range s, a_user s, a_owner s).
 Definition xa_pgf (s : astate) : bool * bool := (a_pages_file s, a_pages_range s).
 
 Lemma xa_frame_emit : forall c s, xa_frame (a_emit c s) = xa_frame s.
@@ -509,7 +509,7 @@ Definition xa_inv (s : astate) (gi go pg : bool) : Prop := a_inv s gi go /\ (pg 
 
 Lemma xa_inv_frame : forall s s' gi go pg, xa_inv s gi go pg -> a_table s' = MAIN -> xa_frame s' = xa_frame s -> xa_inv s' gi go pg.
 Proof.
-  intros s s' gi go pg [[Ht [Hgi [Hgo Hu]]] Hpg] Ht' Hf. unfold xa_frame in Hf. inversion Hf as [[F1 F2 F3 F4 F5]].
+  intros s s' gi go pg [[Ht [Hgi [Hgo Hu]]] Hpg] Ht' Hf. unfold xa_frame in Hf. inversion Hf as [[F1 F2 F3 F4 F5 F6 F7]].
   split.
   - unfold a_inv. rewrite Ht', F1, F2, F3. auto.
   - intros H. unfold xa_pgf. rewrite F4, F5. exact (Hpg H).
